@@ -31,6 +31,8 @@ ASSUMPTIONS = [
     "monotonicity in x and the range [0, height] at interior points are not decided beyond the sign class",
     "parameters are numbers (finite, or the documented infinite shoulders), height > 0; widths and deviations positive, slopes non-zero",
 ]
+LEVEL_SCOPE = ("Decides the listed clauses for every order type (piece) over real arithmetic, reporting only definite disagreements; floating-point "
+               "rounding and the clauses listed as undecided are not decided.")
 FLOORS = {"A1": 20, "A1b": 36, "A2": 19, "A3": 19, "D1": 20, "D2": 50, "M1": 26, "V1": 20}
 
 # positive-by-definition parameters (valid parameterisations): widths and standard deviations; slopes are non-zero
